@@ -237,7 +237,12 @@ func syncedKVMap.iterateKeys
   modifies monitor(s)
   loop 1 invariant rheld(s.RWMutex) && copiedElements != nil && fresh(copiedElements) && (forall k Str :: has(copiedElements, k) ==> hasprefix(k, prefix))
   loop 2 invariant unlocked(s.RWMutex) && fresh(keysSlice) && (forall i Int :: 0 <= i && i < len(keysSlice) ==> hasprefix(keysSlice[i], prefix))
-  loop 3 invariant unlocked(s.RWMutex)
+  loop 3 invariant !stopped && unlocked(s.RWMutex)
+  -- the iteration stops when the consumer says so: no key is handed out after a consumer call returned false
+  ghost local stopped Bool
+  ghost at entry: stopped = false
+  ghost before call syncedKVMap.iterateKeys#consume: assert !stopped
+  ghost after call syncedKVMap.iterateKeys#consume: stopped = !result
   ensures unlocked(s.RWMutex)
 
 func syncedKVMap.iterate
@@ -251,7 +256,12 @@ func syncedKVMap.iterate
   modifies monitor(s), ghost(iteralloc)
   loop 1 invariant rheld(s.RWMutex) && copiedElements != nil && fresh(copiedElements) && (forall k Str :: has(copiedElements, k) ==> hasprefix(k, prefix) && fresh(copiedElements[k]))
   loop 2 invariant unlocked(s.RWMutex) && fresh(keysSlice) && (forall i Int :: 0 <= i && i < len(keysSlice) ==> hasprefix(keysSlice[i], prefix)) && (forall k Str :: has(copiedElements, k) ==> fresh(copiedElements[k]))
-  loop 3 invariant unlocked(s.RWMutex) && (forall k Str :: has(copiedElements, k) ==> fresh(copiedElements[k]))
+  loop 3 invariant !stopped && unlocked(s.RWMutex) && (forall k Str :: has(copiedElements, k) ==> fresh(copiedElements[k]))
+  -- the iteration stops when the consumer says so: no key is handed out after a consumer call returned false
+  ghost local stopped Bool
+  ghost at entry: stopped = false
+  ghost before call syncedKVMap.iterate#consume: assert !stopped
+  ghost after call syncedKVMap.iterate#consume: stopped = !result
   ensures unlocked(s.RWMutex)
 
 func mapDB.Iterate
